@@ -457,3 +457,83 @@ Proof.
     apply por_pick_take; [exact Hs|].
     repeat apply Forall_cons; try apply Forall_nil; try reflexivity; auto.
 Qed.
+
+(* ---- the one- and two-letter scalars through the whole alternation ---- *)
+(* what may follow a cell / element / tag value in a document *)
+Definition delim (r : str) : Prop := r = [] \/ exists c r', r = c :: r' /\ In c [44; 10; 13; 32; 93; 125; 62].
+
+Lemma four_digits_letter c t : is_digit c = false -> four_digits (c :: t) = None.
+Proof. intro H. destruct t as [|b [|c0 [|d r]]]; cbn [four_digits]; try reflexivity. rewrite H. reflexivity. Qed.
+Lemma two_digits_letter c t : is_digit c = false -> two_digits (c :: t) = None.
+Proof. intro H. destruct t as [|b r]; cbn [two_digits]; try reflexivity. rewrite H. reflexivity. Qed.
+
+Ltac delim_cases H :=
+  destruct H as [H|[c [r' [H Hc]]]]; [subst|subst; cbn [In] in Hc; repeat (destruct Hc as [Hc|Hc]; [subst c|]); [..|contradiction]].
+
+Lemma date_letters c t : is_digit c = false -> p_datetime (c :: t) = None /\ p_date (c :: t) = None /\ p_time (c :: t) = None.
+Proof.
+  intro H. assert (Hd : p_date_str (c :: t) = None) by (unfold p_date_str; rewrite four_digits_letter by exact H; reflexivity).
+  assert (Ht : p_time_str (c :: t) = None) by (unfold p_time_str; rewrite two_digits_letter by exact H; reflexivity).
+  repeat split.
+  - unfold p_datetime, p_iso_datetime, pmap, pact, pand. rewrite Hd. reflexivity.
+  - unfold p_date, pact. rewrite Hd. reflexivity.
+  - unfold p_time, pact. rewrite Ht. reflexivity.
+Qed.
+
+(* N, M, R, NA, T, F written by the dumper are read back by the whole alternation when a delimiter follows *)
+Ltac pick D1 D2 D3 :=
+  unfold por;
+  repeat first [ rewrite por_pick_skip by exact D1 | rewrite por_pick_skip by exact D2 | rewrite por_pick_skip by exact D3
+               | rewrite por_pick_skip by reflexivity ];
+  apply por_pick_take; [reflexivity|];
+  repeat (apply Forall_cons; [first [exact D1 | exact D2 | exact D3 | reflexivity]|]); apply Forall_nil.
+
+Lemma scalar_null f v3 rest : delim rest -> p_scalar (S f) v3 (78 :: rest) = Some (Ok VNull, rest).
+Proof.
+  intro H. destruct (date_letters 78 rest eq_refl) as [D1 [D2 D3]].
+  cbn [p_scalar]. destruct v3; cbv zeta; unfold scalars_2_0; delim_cases H; pick D1 D2 D3.
+Qed.
+
+Lemma scalar_marker f v3 rest : delim rest -> p_scalar (S f) v3 (77 :: rest) = Some (Ok VMarker, rest).
+Proof.
+  intro H. destruct (date_letters 77 rest eq_refl) as [D1 [D2 D3]].
+  cbn [p_scalar]. destruct v3; cbv zeta; unfold scalars_2_0; delim_cases H; pick D1 D2 D3.
+Qed.
+Lemma scalar_remove f v3 rest : delim rest -> p_scalar (S f) v3 (82 :: rest) = Some (Ok VRemove, rest).
+Proof.
+  intro H. destruct (date_letters 82 rest eq_refl) as [D1 [D2 D3]].
+  cbn [p_scalar]. destruct v3; cbv zeta; unfold scalars_2_0; delim_cases H; pick D1 D2 D3.
+Qed.
+Lemma scalar_true f v3 rest : delim rest -> p_scalar (S f) v3 (84 :: rest) = Some (Ok (VBool true), rest).
+Proof.
+  intro H. destruct (date_letters 84 rest eq_refl) as [D1 [D2 D3]].
+  cbn [p_scalar]. destruct v3; cbv zeta; unfold scalars_2_0; delim_cases H; pick D1 D2 D3.
+Qed.
+Lemma scalar_false f v3 rest : delim rest -> p_scalar (S f) v3 (70 :: rest) = Some (Ok (VBool false), rest).
+Proof.
+  intro H. destruct (date_letters 70 rest eq_refl) as [D1 [D2 D3]].
+  cbn [p_scalar]. destruct v3; cbv zeta; unfold scalars_2_0; delim_cases H; pick D1 D2 D3.
+Qed.
+
+Lemma por_pick_keep {A} (p : parser A) ps b brest t r rest' :
+  p t = Some (r, rest') -> (length brest <= length rest')%nat ->
+  por_pick (Some (b, brest)) (p :: ps) t = por_pick (Some (b, brest)) ps t.
+Proof. intros H L. cbn [por_pick]. rewrite H. destruct (Nat.ltb_spec (length rest') (length brest)); [lia|reflexivity]. Qed.
+
+Lemma por_pick_start {A} (p : parser A) ps t r rest' :
+  p t = Some (r, rest') -> por_pick None (p :: ps) t = por_pick (Some (r, rest')) ps t.
+Proof. intro H. cbn [por_pick]. rewrite H. reflexivity. Qed.
+
+(* NA (3.0 only): the longest match wins over N *)
+Lemma scalar_na f rest : delim rest -> p_scalar (S f) true (78 :: 65 :: rest) = Some (Ok VNA, rest).
+Proof.
+  intro H. destruct (date_letters 78 (65 :: rest) eq_refl) as [D1 [D2 D3]].
+  cbn [p_scalar]. cbv zeta. unfold por.
+  delim_cases H;
+    (repeat first [ rewrite por_pick_skip by exact D1 | rewrite por_pick_skip by exact D2 | rewrite por_pick_skip by exact D3
+                  | rewrite por_pick_skip by reflexivity ];
+     erewrite por_pick_start by reflexivity;
+     erewrite por_pick_keep by (first [reflexivity | cbn [length]; lia]);
+     apply por_pick_rest_none;
+     repeat (apply Forall_cons; [reflexivity|]); apply Forall_nil).
+Qed.
